@@ -91,6 +91,26 @@ class AccessLockProxy(LockProxy):
         self.lock.release()
 
 
+class YieldingAttr:
+    """a plain instance attribute whose reads and writes are scheduling points (scenarios with 'yattr': [names]);
+    such runs are judged by the monitors only: the model has no event for these accesses"""
+
+    def __init__(self, name, log, default=None):
+        self.key = '_y_' + name
+        self.log = log
+        self.default = default
+
+    def __get__(self, obj, cls=None):
+        if obj is None:
+            return self
+        self.log.sync('attr.r')
+        return obj.__dict__.get(self.key, self.default)
+
+    def __set__(self, obj, value):
+        self.log.sync('attr.w')
+        obj.__dict__[self.key] = value
+
+
 class TimeProxy:
     """stands in for the `time` module inside frappy.io: sleeps and clock reads are logged"""
 
@@ -158,12 +178,14 @@ def run_case(case, policy=None, max_steps=20000):
 
                     def getFullReply(self, request, replyheader):
                         tail = replyheader[-1:]
-                        if tail.isdigit() and int(tail) > 0:
+                        if len(replyheader) == 2 and tail.isdigit() and int(tail) > 0:
                             log.sync('more')
                             log.add('more', n=int(tail))
                             return replyheader + self.readBytes(int(tail))
                         return replyheader
                 cls = VarLen
+            if case.get('yattr'):
+                cls = type('Instrumented', (cls,), {a: YieldingAttr(a, log, getattr(cls, a, None)) for a in case['yattr']})
             cfg = {'cls': cls, 'description': 'x', 'uri': dev.uri}
             for k, v in case['io'].items():
                 cfg[k] = {'value': v}
@@ -330,9 +352,13 @@ def us(x):
 def model_cfg(case):
     io = case['io']
     from frappy.lib.asynconn import AsynConn
-    return {'bytes': case['mode'] == 'bytes', 'eol': '' if case['mode'] == 'bytes' else case.get('eol', '\n'),
+    bm = case['mode'] == 'bytes'
+    eol = '' if bm else case.get('eol', '\n')
+    return {'bytes': bm, 'eol': eol,
             'timeout': us(io.get('timeout', 2)), 'wait_before': us(io.get('wait_before', 0)),
-            'interval': us(io.get('pollinterval', 10)), 'gran': us(AsynConn.timeout), 'slack': SLACK}
+            'interval': us(io.get('pollinterval', 10)), 'gran': us(AsynConn.timeout), 'slack': SLACK,
+            'ident': [[c + eol, n if bm else 0, pfx] for c, pfx, n in case.get('ident') or ()],
+            'retry_first': case.get('ident_retry') is not False}
 
 
 def model_reqs(case, op):
@@ -488,7 +514,7 @@ def gen_device(rng, bm, faults, varlen=False, ident=None):
     return dev
 
 
-GRID = [0.0, 0.0, 1.0, 2.0, 3.2, 3.2, 3.5, 5.0, 6.4, 6.4, 7.0, 9.6]
+GRID = [0.0, 0.0, 1.0, 2.1, 3.2, 3.2, 3.5, 5.3, 6.4, 6.4, 7.15, 9.6]     # no two of them exactly a reconnect interval apart
 
 
 def gen_ops(rng, bm, n, varlen=False, aligned=False):
@@ -586,6 +612,17 @@ def catalogue():
                 'callers': [[['comm', 'A'], ['until', 3.5], ['comm', 'B'], ['until', 7.0], ['comm', 'C']],
                             [['until', 3.5], ['comm', 'D'], ['until', 7.0], ['comm', 'E']]],
                 'poller': {'interval': 3, 'count': 3}, 'callbacks': ['cb0']})
+    # the poller's turn comes exactly while a caller detects a clean disconnect and closes
+    cat.append({'mode': 'string', 'io': io, 'device': {'default': dflt, 'close': {'send': 1, 'phase': 'before'}},
+                'callers': [[['comm', 'A'], ['until', 3.5], ['comm', 'B'], ['until', 7.0], ['comm', 'C']],
+                            [['until', 3.5], ['poll'], ['until', 7.0], ['poll']]],
+                'callbacks': ['cb0']})
+    # ... the same with scheduling points at the accesses of `_last_error` (monitors only)
+    cat.append({'mode': 'string', 'io': io, 'yattr': ['_last_error'],
+                'device': {'default': dflt, 'close': {'send': 1, 'phase': 'before'}},
+                'callers': [[['comm', 'A'], ['until', 3.5], ['comm', 'B'], ['until', 7.0], ['comm', 'C']],
+                            [['until', 3.5], ['poll'], ['until', 7.0], ['poll']]],
+                'callbacks': ['cb0']})
     # replies of variable length (getFullReply reads the rest): two callers at the same instant, the rest arrives later
     cat.append({'mode': 'bytes', 'varlen': True, 'io': io,
                 'device': {'eol': '', 'default': {'reply': 'r3{n}yz', 'delay': 0.1, 'chunks': [2, 1], 'gap': 0.05}},
@@ -614,7 +651,7 @@ def catalogue():
 
 def modelled(case):
     """scenario classes the transaction model covers (the others are judged by the monitors only)"""
-    return not case.get('ident') and not case.get('varlen')
+    return not case.get('yattr')
 
 
 def explore_levels(make_run, max_preemptions, max_runs, rng):
